@@ -631,7 +631,12 @@ class C13(Profile):
         'stores the internal date as a zone-less file time stamp, there '
         'the internal date is compared in UTC',
         'string keys are case-insensitive substring tests on the unfolded '
-        'header value / body text; needles are alphanumeric words']
+        'header value as written / body text; where the answer equals the '
+        'evaluator\'s answer over the header registry\'s rewritten value '
+        'instead, the violation carries key=header-normalised (the listed '
+        'open finding)',
+        'every generated program is legal: one not answered OK is a '
+        'violation unless it names a sequence number beyond the view']
     components = C01.components
 
     def gen(self, rng, tier):
